@@ -166,3 +166,17 @@ Fixpoint run2 (o : op2) (s : st2) (live_a live_b : bool) (tl : timeline) : list 
   end.
 
 Definition run_op2 (o : op2) (tl : timeline) : list ev := run2 o (init2 o) true true tl.
+
+(* state and input liveness after a timeline *)
+Fixpoint final2 (o : op2) (s : st2) (la lb : bool) (tl : timeline) : st2 * bool * bool :=
+  match tl with
+  | [] => (s, la, lb)
+  | (sd, e) :: r =>
+      let live := match sd with A => la | B => lb end in
+      if live then
+        let '(s', _) := step2 o s sd e in
+        final2 o s' (match sd with A => negb (is_term e) | B => la end)
+                    (match sd with B => negb (is_term e) | A => lb end) r
+      else final2 o s la lb r
+  end.
+
